@@ -10,9 +10,12 @@ fi
 tools/build_coq.sh
 mkdir -p build/bin
 cp /repo/go.sum harness/go.sum 2>/dev/null || true
+# warm the Go build cache; every check rebuilds its own harness against /repo anyway, so a harness
+# that does not build is reported by its check, not here
 for d in harness/cmd/*/; do
   n=$(basename "$d")
-  (cd harness && go build -tags verif -o ../build/bin/$n ./cmd/$n)
+  ls "$d"*.go >/dev/null 2>&1 || continue
+  (cd harness && go build -tags verif -o ../build/bin/$n ./cmd/$n) || echo "WARN: harness $n does not build" >&2
 done
-if [ -d translator ]; then (cd translator && go build -o ../build/bin/ ./... ); fi
+if [ -d translator ]; then (cd translator && go build -o ../build/bin/ ./... ) || echo "WARN: translators do not build" >&2; fi
 echo "setup ok"
